@@ -758,7 +758,11 @@ pub fn peer_replay(args: &Args) {
         let mut w = PeerW::new(cfg.clone(), peer_iss_base);
         t.ev(json!({"ev":"reset","run":k,"world":"tcp_peer","src":"tlc","cfg":[{"rx":65535,"tx":65535,"mtu":cfg.mtu,"cc":0,"ad":-1,"nagle":false,"ts":false,"isn":peer_iss_base as i64,"scripted":true},
             {"rx":cfg.rx,"tx":cfg.tx,"mtu":cfg.mtu,"cc":cfg.cc,"ad":-1,"nagle":cfg.nagle,"ts":false,"isn":want}], "peer_fin": sc.get("peer_fin").cloned().unwrap_or(json!(-1))}));
-        w.api_listen(&mut t);
+        if args.flag("connector") {
+            w.api_connect(&mut t);
+        } else {
+            w.api_listen(&mut t);
+        }
         for st in sc["steps"].as_array().unwrap() {
             let kind = st["k"].as_str().unwrap();
             let ok = match kind {
@@ -856,6 +860,22 @@ pub fn peer_random(args: &Args) {
             if !w.inject(f, &mut t, json!({})) {
                 continue;
             }
+            // hostile segments while the socket is in SYN-RECEIVED
+            if rng.chance(40) {
+                for _ in 0..rng.range(1, 3) {
+                    let ack = *rng.pick(&[None, Some(0i64), Some(2), Some(3), Some(-1)]);
+                    let seq = *rng.pick(&[1i64, 1, 0, 2, 70000, 5]);
+                    let kind = rng.below(4);
+                    let f = w.craft(seq, ack, if kind == 2 { 3 } else { 0 }, false, kind == 3, kind == 0, 1000, None, None);
+                    w.now += 1;
+                    if !w.inject(f, &mut t, json!({})) {
+                        break;
+                    }
+                }
+                if w.ep.state() != "SYN-RECEIVED" {
+                    continue;
+                }
+            }
             let f = w.craft(1, Some(1), 0, false, false, false, rng.range(0, 65535) as u16, None, None);
             w.now += 1;
             if !w.inject(f, &mut t, json!({})) {
@@ -865,6 +885,21 @@ pub fn peer_random(args: &Args) {
             w.api_connect(&mut t);
             if !w.timer_poll(&mut t, json!({})) {
                 continue;
+            }
+            // hostile segments while the socket is in SYN-SENT: resets / SYN-ACKs / ACKs around the expected ACK number
+            if rng.chance(50) {
+                for _ in 0..rng.range(1, 3) {
+                    let ack = *rng.pick(&[None, Some(0i64), Some(2), Some(2), Some(3), Some(1000), Some(-5), Some(1)]);
+                    let kind = rng.below(4);
+                    let f = w.craft(0, ack, 0, kind == 1, false, kind == 0 || kind == 3, 1000, None, None);
+                    w.now += 1;
+                    if !w.inject(f, &mut t, json!({})) {
+                        break;
+                    }
+                }
+                if w.ep.state() != "SYN-SENT" {
+                    continue;
+                }
             }
             let f = w.craft(0, Some(1), 0, true, false, false, rng.range(0, 65535) as u16, peer_mss_opt, peer_ws);
             w.now += 1;
